@@ -104,6 +104,16 @@ class PExt:
         return f"PExt({self.name})"
 
 
+class PSpace:
+    """gymnasium space built by the code under verification (python-side value; assumed library model):
+    kind 'discrete' (n: SV int), 'dict' (items: ordered {python key: PSpace}), 'raw' = a dict display holding spaces."""
+
+    def __init__(self, kind, n=None, items=None):
+        self.kind = kind
+        self.n = n
+        self.items = items if items is not None else {}
+
+
 class PMod:
     def __init__(self, mi: ModuleInfo):
         self.mi = mi
@@ -519,7 +529,7 @@ def enum_value_sv(ci: ClassInfo, name) -> SV:
 
 # ------------------------------------------------------------------------------------------------ interpreter
 PURE_BUILTINS = {"len", "isinstance", "int", "str", "bool", "float", "min", "max", "abs", "old", "implies", "iff",
-                 "forall", "exists", "forall_obj", "exists_obj", "type", "hasattr", "getattr", "IPv4Address", "ite", "bit", "fresh", "seq", "epoch", "unchanged", "n_events", "plen", "in_net", "valid_mask", "dict_key", "dict_val", "event_kind", "event_arg", "ev", "same_dict", "same_dict_except", "psum", "cast"}
+                 "forall", "exists", "forall_obj", "exists_obj", "type", "hasattr", "getattr", "IPv4Address", "ite", "bit", "fresh", "seq", "epoch", "unchanged", "n_events", "plen", "in_net", "valid_mask", "dict_key", "dict_val", "event_kind", "event_arg", "ev", "same_dict", "same_dict_except", "psum", "cast", "member", "is_enum_value"}
 
 
 class Interp:
@@ -727,6 +737,9 @@ class Interp:
             mfr = Frame(mod)
             if isinstance(node, ast.Call) and isinstance(node.func, ast.Name) and node.func.id in ("getLogger", "TypeAdapter"):
                 return PLog() if node.func.id == "getLogger" else PExt("TypeAdapter")
+            if isinstance(node, ast.Call) and isinstance(node.func, ast.Name) and node.func.id == "object" and not node.args:
+                # module-level sentinel `X = object()`: one fixed object, distinct from every value and every other sentinel
+                return SV(smt.mk_ref(-(900000000 + smt.STR.id(f"sentinel:{mod.name}.{name}"))), T.ANY)
             return self.ev(node, mfr)
         raise Refuse(f"cannot resolve global {name}")
 
@@ -859,8 +872,24 @@ class Interp:
         return self.new_set(items)
 
     def ev_Dict(self, node, fr):
+        if node.values and all(k is not None for k in node.keys):
+            # a display whose values are gymnasium spaces stays a python-side mapping (literal keys only)
+            first = self.ev(node.values[0], fr)
+            if isinstance(first, PSpace):
+                items = {}
+                for j, (k, v) in enumerate(zip(node.keys, node.values)):
+                    kv = self.ev(k, fr)
+                    vv = first if j == 0 else self.ev(v, fr)
+                    if not isinstance(kv, SV) or kv.c is NOC or isinstance(kv.c, tuple) or not isinstance(vv, PSpace):
+                        raise Refuse("dict display of spaces with a computed key")
+                    items[kv.c] = vv
+                return PSpace("raw", items=items)
+            return self._ev_dict_heap(node, fr, first)
+        return self._ev_dict_heap(node, fr, None)
+
+    def _ev_dict_heap(self, node, fr, first):
         d = self.new_dict()
-        for k, v in zip(node.keys, node.values):
+        for j, (k, v) in enumerate(zip(node.keys, node.values)):
             if k is None:
                 # {**m}: every entry of m is (re)inserted; later insertions win.  Membership and values are exact, the
                 # resulting iteration order is left unconstrained (fresh key sequence, well-formed by assumption)
@@ -884,7 +913,7 @@ class Interp:
                 d.c = NOC
                 continue
             kv = self.to_sv(self.ev(k, fr))
-            vv = self.to_sv(self.ev(v, fr))
+            vv = self.to_sv(first if (j == 0 and first is not None) else self.ev(v, fr))
             self.dict_set(d, kv, vv)
         return d
 
@@ -1564,6 +1593,11 @@ class Interp:
             for n in reversed(names[:-1]):
                 res = z3.If(idx.t == const(n).t, ms[n], res)
             return SV(smt.simp(res), T.ENUM(base.ci))
+        if isinstance(base, PSpace):
+            kk = idx if isinstance(idx, SV) else None
+            if base.kind not in ("dict", "raw") or kk is None or kk.c is NOC or kk.c not in base.items:
+                raise Refuse("space[...] with a computed or absent key")
+            return base.items[kk.c]
         if isinstance(base, PExt):
             st.log.append(f"{base.name}[...] read as an unconstrained value")
             return st.fresh_val("ext_item", T.ANY)
@@ -1782,6 +1816,12 @@ class Interp:
             return
         if isinstance(target, ast.Subscript):
             base = self.ev(target.value, fr)
+            if isinstance(base, PSpace) and base.kind in ("dict", "raw"):
+                kk = self.ev(target.slice, fr)
+                if not isinstance(kk, SV) or kk.c is NOC or isinstance(kk.c, tuple) or not isinstance(v, PSpace):
+                    raise Refuse("space[...] = ... with a computed key or a non-space value")
+                base.items[kk.c] = v
+                return
             idx = self.to_sv(self.ev(target.slice, fr))
             v = self.to_sv(v)
             if not isinstance(base, SV):
